@@ -583,6 +583,13 @@ HEADER_USES = [
     ('$a = N; $b = NOT(N); $c = NOT(0);', '#bind NOT\n#define N 5'),
     ('switch ($x) { case A: say "a"; case B: say "b"; }', '#define A 1\n#define B 2'),
     ('PAIR(1, 2); PAIR((3), (4, 5));', '#deepdefine PAIR(a, b) say "a b"'),
+    # JSON / NBT / list arguments that come out of a macro (load-level statements: the third field)
+    ('Predicate.locations("p", PRED(0.5), 0, 1, 0, 1, 0, 1); Predicate.locations("q", PRED(1), 0, 1, 0, 1, 0, 1);',
+     '#deepdefine PRED(x) {"condition": "minecraft:random_chance", "chance": x}', "top"),
+    ('JMC.packMeta(META(1));', '#deepdefine META(x) {"pack": {"x": x}}', "top"),
+    ('::cfg = CFG(1); ::cfg2 = CFG("s");', '#deepdefine CFG(v) {a: v, b: [v, v]}'),
+    ('Item.create(it, stone, "N", LORE(a)); Item.create(it2, stone, "N", LORE(b));', '#deepdefine LORE(x) ["x", "y"]', "top"),
+    ('tellraw @a TXT(hi); tellraw @s TXT(yo);', '#deepdefine TXT(t) {"text": "t", "color": "red"}'),
 ]
 HEADER_PAD = ("// generated header\n\n// the definitions below sit on late lines\n#define PAD_A 0\n\n"
               "// more padding\n#define PAD_B PAD_A\n//\n")
@@ -621,13 +628,16 @@ def statements() -> list[dict]:
         out.append(dict(name=f"stmt.header.{n}", src=src, header=hdr, pack_format=None, origin="statements",
                         kind="header", span=(15, 15 + len(stmt)), header_span=(0, len(hdr))))
     # triage round 5: use sites of macros; definitions on late header lines over a one-line source; load-level sources
-    for n, (stmt, hdr) in enumerate(HEADER_LINES + HEADER_USES):
+    for n, item in enumerate(HEADER_LINES + HEADER_USES):
+        stmt, hdr = item[0], item[1]
+        top_only = len(item) > 2
         uses = n >= len(HEADER_LINES)
         top_ok = not stmt.startswith("function ")
         variants = []
-        if uses:
+        if uses and not top_only:
             variants.append(("fn", "function f() { " + stmt + " }", 15, hdr, 0))
-        variants.append(("fn-late", "function f() { " + stmt + " }", 15, HEADER_PAD + hdr, len(HEADER_PAD)))
+        if not top_only:
+            variants.append(("fn-late", "function f() { " + stmt + " }", 15, HEADER_PAD + hdr, len(HEADER_PAD)))
         if uses and top_ok:
             variants.append(("top", stmt, 0, hdr, 0))
             variants.append(("top-late", stmt, 0, HEADER_PAD + hdr, len(HEADER_PAD)))
